@@ -102,6 +102,8 @@ def expr_src(e):
         return "%s.%s" % (sub(e["o"], PREC["call"]), e["m"]), PREC["call"]
     if k == "setf":
         return "%s.%s = %s" % (sub(e["o"], PREC["call"]), e["m"], sub(e["e"], PREC["assign"])), PREC["assign"]
+    if k == "csetf":
+        return "%s.%s %s= %s" % (sub(e["o"], PREC["call"]), e["m"], e["op"], sub(e["e"], PREC["|"])), PREC["assign"]
     if k == "lam":
         ps = ", ".join(p["x"] for p in e["ps"])
         head = "|%s|" % ps if e["ps"] else "||"
